@@ -627,8 +627,16 @@ func vfE7NotifyContent(e *vfE7Env, c vfE7Case, path string, a *AdminAction) stri
 		return fmt.Sprintf("notification names topic=%q channel=%q node=%q, the request was about topic=%q channel=%q node=%q",
 			a.Topic, a.Channel, a.Node, wantTopic, wantChan, wantNode)
 	}
-	if a.User != "" {
-		return fmt.Sprintf("notification carries user %q although no basic auth was sent", a.User)
+	wantUser := ""
+	hr := &http.Request{Header: http.Header{}}
+	for _, h := range c.sendHdrs {
+		hr.Header.Add(h[0], h[1])
+	}
+	if u, _, ok := hr.BasicAuth(); ok {
+		wantUser = u
+	}
+	if a.User != wantUser {
+		return fmt.Sprintf("notification carries user %q, the request's basic-auth user is %q", a.User, wantUser)
 	}
 	if u, err := url.Parse(a.URL); err != nil || u.EscapedPath() != strings.SplitN(path, "?", 2)[0] && u.Path != strings.SplitN(path, "?", 2)[0] {
 		return fmt.Sprintf("notification URL %q is not the request path %q", a.URL, path)
